@@ -44,8 +44,8 @@ P = {
  "C13": ("exploration", "model-based property testing over message histories on the documented minimal device",
          "Histories of valid, invalid (every kind) and handler-failing messages mixed with SYST:ERR/ESR queries are executed on a device wired as examples/minimal_scpi.rs (unbounded and ArrayVec queue); responses and device fields are compared with a status model after every message.",
          "ESR class bits come from the C14 table, not from esr_mask.", "4/C13"),
- "C14": ("exploration", "exhaustive enumeration of all 65536 error numbers + labelled error stream from generated faulty messages",
-         "All i16 values through esr_mask (custom and standard) and get_error are compared with a class table transcribed from the property; errors the library raises for faults of known kind must lie in the right class.",
+ "C14": ("exploration", "exhaustive enumeration of all 65536 error numbers + labelled error stream from generated faulty messages + bounded-exhaustive enumeration of malformed channel lists (class of every error raised)",
+         "All i16 values through esr_mask (custom and standard) and get_error are compared with a class table transcribed from the property; errors the library raises for faults of known kind must lie in the right class; every malformed channel list of up to 9-13 characters over list punctuation is iterated and converted, each error must be a command error.",
          "No independent list of all standard error numbers is asserted.", "4/C14"),
  "C15": ("exploration", "model-based property testing over histories with a per-bit latch model + bounded-exhaustive per-bit filter / toggle sequences",
          "Histories of condition updates, filter/enable writes, queries, *CLS and STATus:PRESet on both register sets; responses and EventRegister fields compared with a per-bit model after every step.",
@@ -54,10 +54,10 @@ P = {
          "Histories over the full minimal device (common commands, status subsystem, failing messages, device events, MAV both ways); *STB? and every register compared with the model after every message.",
          "Summary bit follows the crate's documented condition&enable definition.", "4/C16"),
  "C17": ("exploration", "property-based testing with an executable specification of numeric_value resolution",
-         "Keywords and near-misses, boundary and random values, NaN/inf, unit quantities x (min,max,default) configurations including min=max; parse and resolve results compared with the specification and the invariant min <= x <= max.",
+         "Keywords and near-misses, boundary and random values, NaN/inf, unit quantities x (min,max,default) configurations including min=max; parse and resolve results compared with the specification and the invariant min <= x <= max; every builder path, NumericValue::map and the arithmetic operators between parsing and resolving.",
          "Underlying numeric conversions are judged by the C07/C08 oracles.", "4/C17"),
  "C18": ("exploration", "property-based testing against an independently written SCPI suffix table + bounded-exhaustive enumeration of every letter string up to 6 (7) characters as a suffix of every quantity",
-         "Every defined suffix of every quantity in random case x decimal literals, undefined and near-miss suffixes, Amplitude and Db wrappers; value compared with literal x factor + offset from a hand-written table within 8 ulp.",
+         "Every defined suffix of every quantity in random case x decimal literals, undefined and near-miss suffixes, Amplitude and Db wrappers; value compared with literal x factor + offset from a hand-written table within 8 ulp; every 7-bit byte substituted at / inserted before every position of every defined suffix.",
          "ANN uses uom's 365-day year; bare temperature is degrees Celsius as the crate declares.", "4/C18"),
  "C19": ("exploration", "grammar-based property testing with by-construction expectations + corruption operators + bounded exhaustive enumeration judged by a list recogniser",
          "List ASTs render to text with expected entries; iteration and all conversions must yield exactly those; each listed corruption must give an error after the expected prefix; all strings up to a bounded length over a 14-symbol alphabet are judged by a reference recogniser.",
